@@ -1317,13 +1317,13 @@ func (s *Store) RefineUF(roots ...*Term) []*Term {
 		has := func(p string) bool { return strings.HasPrefix(t.Name, p) }
 		var op Op
 		switch {
-		case has("absmul"):
+		case has("absmul"), has("uf_mul"):
 			op = OpMul
-		case has("absdivs"):
+		case has("absdivs"), has("uf_div"):
 			op = OpSDiv
 		case has("absdiv"):
 			op = OpUDiv
-		case has("absrems"):
+		case has("absrems"), has("uf_rem"):
 			op = OpSRem
 		case has("absrem"):
 			op = OpURem
@@ -1471,4 +1471,32 @@ func (s *Store) noteRem(res, a, m *Term) {
 	if _, ok := s.modprov[res.ID]; !ok {
 		s.modprov[res.ID] = ModProv{ax.base, ax.off % m.Val, m.Val}
 	}
+}
+
+// SignedUF builds the abstraction of a signed product, quotient or
+// remainder ("mul", "div", "rem") with unary minus pulled out of the
+// operands first: (-x)*y = -(x*y), (-x)/y = x/(-y) = -(x/y), (-x)%y = -(x%y),
+// x%(-y) = x%y (Go's truncated division; operands are bounded well inside 63
+// bits by the callers). Both sides of a comparison use this constructor, so
+// sign bookkeeping never needs the exact operations.
+func (s *Store) SignedUF(name string, a, b *Term) *Term {
+	neg := false
+	if a.Op == OpNeg {
+		a = a.Args[0]
+		neg = !neg
+	}
+	if b.Op == OpNeg {
+		b = b.Args[0]
+		if name != "rem" {
+			neg = !neg
+		}
+	}
+	if name == "mul" && a.ID > b.ID {
+		a, b = b, a
+	}
+	t := s.UF("uf_"+name, a.W, a, b)
+	if neg {
+		return s.Neg(t)
+	}
+	return t
 }
